@@ -313,6 +313,11 @@ fn gen_tree(rng: &mut Rng, q: Q, w: u8, height: u32, base: &Moc) -> Tree {
   }
 }
 
+/// lazy evaluation of a tree: (depth, ranges) of what the pipeline yields
+pub fn lazy_eval(q: Q, w: u8, t: &Tree) -> Result<(u8, Vec<(u64, u64)>), String> {
+  dispatch!(q, w, |T, QQ| run_tree::<T, QQ>(t)).map(|m| (m.depth, m.yielded))
+}
+
 pub fn gen_tree_pub(rng: &mut Rng, q: Q, w: u8, height: u32, base: &Moc) -> Tree {
   gen_tree(rng, q, w, height, base)
 }
